@@ -48,6 +48,7 @@ PATH_RULES = {
     "P-ATOMIC": "no table / flag write precedes an explicit raise in the same method",
     "P-SHRINK": "weight / metadata of a record are not read after the record was removed (shrinking remove_node)",
     "P-LOOPVAR": "no loop variable (key component) is used after its loop in remove_node",
+    "Q-ISO": "isolated_nodes / is_isolated decide isolation from the neighbour set (directly or by delegation), never from incidence lists or degrees",
     "P-NEIGH": "every return of get_neighbors passes through removal of the queried node",
     "E-LIVEITER": "no loop iterates an internal table (or a list stored in it) while its body writes that table, directly or via self.<method>()",
     "E-PURE": "query methods (everything that is not a declared mutator) never modify self, directly or through callees / lent references",
@@ -61,10 +62,47 @@ PATH_RULES = {
 }
 
 
+def check_result_kinds(ctx, res: Result, cls: str):
+    """K-RET: the kind the interpreter infers for what a query returns (joined over its return paths) fits one of the
+    kinds its docstring promises.  A size where an order is promised, an edge id where a weight is, a node where a
+    hyperedge is, the opposite role - are reported; a kind the interpreter cannot determine is `unknown`."""
+    from ..kinds import OK, Const, Mismatch, Union, _Top, fits, only_none, strip_none
+    from ..model import loc
+
+    res.rules["K-RET"] = "a query returns a value of its documented kind (size vs order, weight vs id, hyperedge vs node, role, time, layer)"
+    want = T.query_results(cls)
+    for name, expected in want.items():
+        if name not in ctx.methods(cls):
+            continue
+        fi = ctx.methods(cls)[name]
+        got = ctx.interp.analyse_entry(fi)
+        members = list(got.members) if isinstance(got, Union) else [got]
+        worst, why = "ok", ""
+        for m in members:
+            if only_none(m):
+                continue  # a path without a result (rejected call); not the business of this rule
+            if isinstance(m, Const) and isinstance(m.value, bool):
+                from ..kinds import BOOL
+
+                m = BOOL
+            verdicts = [fits(m, e) for e in expected]
+            if any(x is OK for x in verdicts):
+                continue
+            if all(isinstance(x, Mismatch) for x in verdicts) and not isinstance(strip_none(m), _Top) and "?" not in repr(m):
+                worst, why = "violation", f"returns {m!r}; documented result: {' or '.join(repr(e) for e in expected)} ({verdicts[0].reason})"
+                break
+            if worst == "ok":
+                worst, why = "unknown", f"result kind {m!r} not decided against {' or '.join(repr(e) for e in expected)}"
+        res.add("K-RET", fi.short, f"return kind {got!r}"[:160], "result", worst, why, loc(fi, fi.node))
+
+
 def run_container(ctx, prop: str, cls: str) -> Result:
     res = Result(prop)
     res.rules.update(KIND_RULES)
     res.rules.update(PATH_RULES)
+    for c, what, attrs in getattr(ctx, "table_notes", []):
+        if c == cls:
+            res.unknown("T-DECL", cls, ", ".join(attrs), what, "the table declarations of hgxverif/tables.py and the class disagree: " + ("these attributes are created in __init__ but have no declared kind, so the pairing rules do not cover them" if what == "undeclared-table" else "these declared tables are not assigned anywhere in the class"))
     ctx.add_sites(res, ctx.sites(rules=KIND_RULES.keys(), classes=[cls]))
     # module-level helpers of the class's file (canonicalisers / size helpers)
     ctx.add_sites(res, ctx.sites(rules=KIND_RULES.keys(), files=[T.CORE_FILES[cls]]))
@@ -82,10 +120,15 @@ def run_container(ctx, prop: str, cls: str) -> Result:
         RC.check_atomic(ctx, res, cls, MUTATORS_ATOMIC)
     with res.guard("RC.check_neighborsctx, res, cls"):
         RC.check_neighbors(ctx, res, cls)
+    with res.guard("RC.check_isolation(ctx, res, cls)"):
+        RC.check_isolation(ctx, res, cls)
     with res.guard("RC.check_record_creation_guardedctx, res, cls"):
         RC.check_record_creation_guarded(ctx, res, cls)
     with res.guard("RC.check_live_iterationctx, res, cls"):
         RC.check_live_iteration(ctx, res, cls)
+    # ---- K-RET: every query hands back a value of its documented kind (units of measure for results)
+    with res.guard("K-RET: result kinds of the queries"):
+        check_result_kinds(ctx, res, cls)
     # ---- queries are read-only; mutators do not share one mutable object between entries; copy is deep
     eff = Effects(ctx)
     mutators, queries = [], []
